@@ -13,8 +13,8 @@ def Ride (C : List Conn) (e x : Conn) : Prop :=
   e ∈ C ∧ x ∈ C ∧ e.trip = x.trip ∧ e.seq ≤ x.seq ∧ e.canBoard = true ∧ x.canUnboard = true
 
 /-- after alighting from `x`, walking `(w, d)` reaches the stop of `e'` in time to board it -/
-def Link (cx : Ctx) (x : Conn) (w d : Int) (e' : Conn) : Prop :=
-  (⟨x.arrStop, w, d⟩ : NTD) ∈ cx.ds.rfootOf e'.depStop ∧ w ≤ cx.p.maxTransfer ∧
+def Link (cx : Ctx) (x : Conn) (w : Int) (e' : Conn) : Prop :=
+  (∃ d, (⟨x.arrStop, w, d⟩ : NTD) ∈ cx.ds.rfootOf e'.depStop) ∧ w ≤ cx.p.maxTransfer ∧
   x.arr + w + e'.effWait cx.p.minWait ≤ e'.dep
 
 /-- every leg is a ride and consecutive legs are linked by the walk stored with the earlier leg -/
@@ -22,7 +22,7 @@ def LegsOK (cx : Ctx) (C : List Conn) : List JStep → Prop
   | [] => True
   | [l] => ∃ e x, l.enter = some e ∧ l.exit = some x ∧ Ride C e x
   | l :: l' :: rest =>
-    (∃ e x e', l.enter = some e ∧ l.exit = some x ∧ Ride C e x ∧ l'.enter = some e' ∧ Link cx x l.walk l.dist e') ∧
+    (∃ e x e', l.enter = some e ∧ l.exit = some x ∧ Ride C e x ∧ l'.enter = some e' ∧ Link cx x l.walk e') ∧
     LegsOK cx C (l' :: rest)
 
 theorem RideFact.ride {pre : List Conn} {s : RState} {e x : Conn} (h : RideFact pre s e x) : Ride pre e x :=
@@ -31,7 +31,7 @@ theorem RideFact.ride {pre : List Conn} {s : RState} {e x : Conn} (h : RideFact 
 /-- append a leg: the former last leg receives the walk that leads to the new one -/
 theorem LegsOK_snoc (cx : Ctx) (C : List Conn) : ∀ (a : List JStep) (l cur : JStep) (e x e' x' : Conn) (w d : Int),
     LegsOK cx C (a ++ [l]) → l.enter = some e → l.exit = some x → cur.enter = some e' → cur.exit = some x' →
-    Ride C e' x' → Link cx x w d e' →
+    Ride C e' x' → Link cx x w e' →
     LegsOK cx C (a ++ [{ l with walk := w, dist := d }] ++ [cur]) := by
   intro a
   induction a with
@@ -152,7 +152,7 @@ theorem reconLoop_valid {cx : Ctx} {pre : List Conn} {s : RState} (hI : RInv cx 
             rw [hg] at this; cases this; rfl
           rw [h2'] at h1'; exact h1'.symm
         simp only []
-        have hlink : Link cx x0 cur.walk cur.dist e := ⟨hfoot, hmax, by omega⟩
+        have hlink : Link cx x0 cur.walk e := ⟨⟨_, hfoot⟩, hmax, by omega⟩
         have hok : LegsOK cx pre (acc.dropLast ++ [{ l with walk := cur.walk, dist := cur.dist }] ++ [cur]) := by
           apply LegsOK_snoc cx pre acc.dropLast l cur e0 x0 e x cur.walk cur.dist _ he0 hx0 he hx hride.ride hlink
           rw [← hsplit]; exact h1
